@@ -5,6 +5,7 @@
 import Stevia.Proofs.TreeState
 import Stevia.Proofs.ArraySetState
 import Stevia.Proofs.ExecInv
+import Stevia.Generated.Facts
 
 namespace Stevia.C06
 open Stevia
@@ -82,6 +83,24 @@ theorem array_probe_bound {κ : Type} [LinOrd κ] {key : α → κ} {P : Nat} {s
     (h : s.Inv key P) (x : κ) {r : Idx} {ps : List Nat} (hi : s.indexP key x = .ok (r, ps)) :
     ps.length = 0 ∨ 2 ^ (ps.length - 1) ≤ s.len :=
   ASet.probe_bound h x hi
+
+/-- The conditions under which `rebalance` rotates, as written in both source files (extracted on
+    this run), are the ones of the model's `T.rebal`: with `bf = ht l - ht r` the code rotates right iff
+    `bf > 1` (model: `ht r + 1 < ht l`), rotates the left child first iff its factor is `< 0` (model:
+    `ht l.left < ht l.right`), and symmetrically. Robust to equivalent rewrites (`1 < bf`, `bf >= 2`). -/
+theorem source_rebalance_conditions_are_the_models (l r ll lr rl rr : Nat) :
+    (Facts.tree32HeavyLeft ((l : Int) - r) = decide (r + 1 < l)) ∧
+    (Facts.tree32LeftChildRightHeavy ((ll : Int) - lr) = decide (ll < lr)) ∧
+    (Facts.tree32HeavyRight ((l : Int) - r) = decide (l + 1 < r)) ∧
+    (Facts.tree32RightChildLeftHeavy ((rl : Int) - rr) = decide (rr < rl)) ∧
+    (Facts.tree8HeavyLeft ((l : Int) - r) = decide (r + 1 < l)) ∧
+    (Facts.tree8LeftChildRightHeavy ((ll : Int) - lr) = decide (ll < lr)) ∧
+    (Facts.tree8HeavyRight ((l : Int) - r) = decide (l + 1 < r)) ∧
+    (Facts.tree8RightChildLeftHeavy ((rl : Int) - rr) = decide (rr < rl)) := by
+  simp only [Facts.tree32HeavyLeft, Facts.tree32LeftChildRightHeavy, Facts.tree32HeavyRight,
+    Facts.tree32RightChildLeftHeavy, Facts.tree8HeavyLeft, Facts.tree8LeftChildRightHeavy,
+    Facts.tree8HeavyRight, Facts.tree8RightChildLeftHeavy, decide_eq_decide]
+  omega
 
 /-- Non-vacuity: the Fibonacci tree of height 4 is balanced with 7 nodes. -/
 example : (fibT 4).Bal ∧ (fibT 4).size = 7 := ⟨(fibT_spec 4).1, by decide⟩
